@@ -3,7 +3,8 @@
      internal/compression/gzip.go         gzipDecompressor   (the repaired code, see KNOWN_FINDINGS)
      internal/compression/zstd.go         zstdDecompressor   (closed decoder is discarded, lazily re-created)
      internal/compression/deflate.go      deflateDecompressor (new zlib reader per Reset, parks a sentinel)
-     internal/compression/brotli.go, snappy.go  (forwarding wrappers; Close is a no-op)
+     internal/compression/brotli.go       brotliDecompressor (the repaired code: a new Reader per Reset)
+     internal/compression/snappy.go       (forwarding wrapper; Close is a no-op)
      internal/compression/sentinel.go     errorDecompressor / errorCompressor
    and of the five places that map encoding names / enum values to algorithms.
    The codecs themselves (gzip, zlib, brotli, snappy, zstd) are third-party code: they
@@ -63,7 +64,7 @@ Section Wrappers.
   Inductive dstate :=
   | DIdent (r : option bytes)     (* noOpDecompressor: embedded ReadCloser nil / what the source still holds *)
   | DGzip (r : option inst)       (* gzipDecompressor.reader, nil until a Reset has succeeded *)
-  | DBrotli (i : inst)            (* brotliDecompressor.reader *)
+  | DBrotli (r : option inst)     (* brotliDecompressor.reader (a *brotli.Reader) *)
   | DZstd (d : option inst)       (* zstdDecompressor.decoder, nil after Close *)
   | DDeflate (r : deflate_rd)
   | DSnappy (i : inst)
@@ -74,7 +75,7 @@ Section Wrappers.
     match k with
     | KIdent => DIdent None
     | KGzip => DGzip None
-    | KBrotli => DBrotli l_zero
+    | KBrotli => DBrotli (Some l_zero)
     | KZstd => DZstd (Some l_zero)
     | KDeflate => DDeflate RNil
     | KSnappy => DSnappy l_zero
@@ -98,9 +99,13 @@ Section Wrappers.
     | DGzip (Some i), DRead n => let '(i', r) := l_read i n in (DGzip (Some i'), OR r)
     | DGzip None, DClose => (st, OU UOk)
     | DGzip (Some i), DClose => let '(i', u) := l_close i in (DGzip (Some i'), OU u)
-    (* ---- brotli: forwards; Close does nothing *)
-    | DBrotli i, DReset s => let '(i', u) := l_reset i s in (DBrotli i', OU u)
-    | DBrotli i, DRead n => let '(i', r) := l_read i n in (DBrotli i', OR r)
+    (* ---- brotli (repaired): every Reset makes a new Reader — the library's own Reset keeps
+            unconsumed input of the previous source; NewReader cannot report an error; Close does nothing *)
+    | DBrotli _, DReset s =>
+      let '(o, u) := l_new s in
+      (DBrotli o, OU match u with UCrash => UCrash | _ => UOk end)
+    | DBrotli None, DRead _ => (st, OR RCrash)
+    | DBrotli (Some i), DRead n => let '(i', r) := l_read i n in (DBrotli (Some i'), OR r)
     | DBrotli _, DClose => (st, OU UOk)
     (* ---- snappy: forwards; Reset cannot report an error; Close does nothing *)
     | DSnappy i, DReset s =>
@@ -170,7 +175,7 @@ Section Wrappers.
     | CIdent false, CWrite _ => (st, UCrash, [])
     | CIdent true, CWrite b => (st, UOk, b)
     | CIdent false, CClose => (st, UCrash, [])
-    | CIdent true, CClose => (st, UOk, [])             (* noOpCloser; the destinations here are plain writers *)
+    | CIdent true, CClose => (st, UOk, [])             (* noOpCloser: the destination is never closed *)
     | CLib w, CReset => let '(w', u) := w_reset w in (CLib w', u, [])
     | CLib w, CWrite b => let '(w', u, out) := w_write w b in (CLib w', u, out)
     | CLib w, CClose => let '(w', u, out) := w_close w in (CLib w', u, out)
